@@ -58,6 +58,16 @@ def first_diff(a, b, path="$"):
 # ------------------------------------------------------------------ types
 
 
+def _copyable_with_linear_arg(t) -> bool:
+    if isinstance(t, list):
+        return any(_copyable_with_linear_arg(x) for x in t)
+    if not isinstance(t, dict):
+        return False
+    if t.get("k") == "ext" and ref.ref_bound(t) == "C" and any(a["k"] == "type" and ref.ref_bound(a["t"]) == "A" for a in t["args"]):
+        return True
+    return any(_copyable_with_linear_arg(v) for v in t.values())
+
+
 def check_type(case) -> list[Fail]:
     import hugr._serialization.tys as stys
     import hugr.tys as tys
@@ -509,6 +519,10 @@ SUBS = [
         classes=lambda c: [c["op"]["k"]] + (["without-offsets"] if 0 in c["rewrites"] else []), n_quick=300, n_thorough=3000),
     Sub("foreign", check_foreign, strategy=foreign_strategy, nontrivial=lambda c: True, classes=lambda c: ["rewrite:" + ["null-order", "general-unit", "drop-defaults", "metadata-holes", "encoder+key-order", "extra-attributes", "hierarchy-order", "parallel-edge"][i % 8] for i in c["rewrites"]],
         n_quick=250, n_thorough=2000, sample_ok=lambda c: len(json.dumps(c)) < 3000),
+    # definition-backed extension types (explicit and from-params bounds, linear and copyable arguments) nested in
+    # sums, arrays and arguments: they are written as opaque types and come back as such, bound included
+    Sub("ext-types", check_type, strategy=lambda tier: asts.types_x(3, 1).map(lambda t: {"t": t}), nontrivial=lambda c: '"k": "ext"' in json.dumps(c["t"]),
+        classes=lambda c: [c["t"]["k"]] + (["declared-copyable-with-linear-argument"] if _copyable_with_linear_arg(c["t"]) else []), n_quick=800, n_thorough=5000),
     Sub("types", check_type, strategy=lambda tier: asts.types(3 if tier == "quick" else 4).map(lambda t: {"t": t}), nontrivial=nt_depth("t"),
         classes=lambda c: [c["t"]["k"]], n_quick=1200, n_thorough=8000),
     Sub("params_args", check_param_arg,
